@@ -1025,7 +1025,14 @@ class _Tree(_ArithmeticMixin, _Base):
             min = self._to_key(min)
             bucket = self._findbucket(min)
         if bucket is not None:
-            return bucket.minKey(min)
+            try:
+                return bucket.minKey(min)
+            except ValueError:
+                # min lies in the gap after this bucket's last key
+                bucket = bucket._next
+                if bucket is None:
+                    raise
+                return bucket.minKey()
         raise ValueError('empty tree')
 
     def maxKey(self, max=_marker):
